@@ -89,6 +89,13 @@ MUTANTS = [
     ("C10", R + "iteration/_engine.py", "        if (result := relation.payload) is not None:\n            return result\n", "", "execute ignores an existing payload (re-evaluates materializations)"),
     ("C10", R + "iteration/_engine.py", "                relation.attach_payload(result)\n", "", "execute does not cache a materialization"),
     ("C10", R + "iteration/_engine.py", "                result = self.execute(target).materialized()\n                relation.attach_payload(result)", "                result = self.execute(target).materialized()\n                target.attach_payload(result)", "execute attaches the payload to the wrong node"),
+    ("C12", R + "sql/_engine.py", "                        stop_inclusive = stop_exclusive - 1", "                        stop_inclusive = stop_exclusive", "range stop treated as inclusive"),
+    ("C12", R + "sql/_engine.py", "                                return sqlalchemy.sql.and_(*[target, remainder])", "                                return target", "range step ignored"),
+    ("C12", R + "sql/_engine.py", "                    return sqlalchemy.sql.and_(\n                        *[self.convert_predicate(operand, columns_available) for operand in operands]\n                    )", "                    return sqlalchemy.sql.or_(\n                        *[self.convert_predicate(operand, columns_available) for operand in operands]\n                    )", "AND translated as OR"),
+    ("C12", R + "sql/_engine.py", "                return sqlalchemy.sql.not_(self.convert_predicate(operand, columns_available))", "                return self.convert_predicate(operand, columns_available)", "NOT dropped"),
+    ("C12", R + "sql/_engine.py", "                        if step < 0:\n                            if start <= stop_exclusive:\n                                return sqlalchemy.sql.literal(False)", "                        if step < 0:\n                            if start < stop_exclusive:\n                                return sqlalchemy.sql.literal(False)", "empty descending range test off by one"),
+    ("C12", R + "sql/_engine.py", "                                if start >= 0:\n                                    remainder", "                                if True:\n                                    remainder", "negative start uses the truncating remainder again (F12)"),
+    ("C12", R + "sql/_engine.py", "            case ColumnReference(tag=tag):\n                return columns_available[tag]", "            case ColumnReference(tag=tag):\n                return self.convert_column_literal(0)", "column reference replaced by a literal"),
 ]
 
 
